@@ -74,20 +74,34 @@ def kinds_of(shape):
 
 CALLBACK_WRITES = ("retain_mut",)
 
+def rows_of(cols):
+    n = min((len(c) for c in cols), default=0)
+    return sorted(tuple(c[p] for c in cols) for p in range(n))
+
+
 def mon_c02(sc, prof, pairs):
+    """lockstep after every step; position i holds fields of one logical element (tag check, or — once a
+    user callback has overwritten a field — the rows as a multiset against the Vec<T> mirror);
+    an argument panic leaves the container exactly as it was"""
     out = []
     kinds = kinds_of(sc.shape)
     prev = None
+    user_wrote = False
+    cb_panicked = False
     for i, s in pairs:
         if i["step"] == "end": continue
         op = op_of(sc, i["step"])
+        line = sc.lines[int(i["step"])]
+        if "wleaf" in line: user_wrote = True
+        if "panic=" in line: cb_panicked = True
         regs = parse_regs(i["regs"])
         if not lockstep_ok(regs):
             out.append(Failure(sc, prof, i["step"], f"field arrays out of lockstep: {i['regs']}", f"C02:{op}:lockstep", {"I": i["raw"]}))
-        elif op not in CALLBACK_WRITES and "wleaf" not in sc.lines[int(i["step"])] and not aligned_ok(regs, kinds):
+        elif not user_wrote and not aligned_ok(regs, kinds):
             out.append(Failure(sc, prof, i["step"], f"position holds fields of different elements: {i['regs']}", f"C02:{op}:aligned", {"I": i["raw"]}))
-        line = sc.lines[int(i["step"])]
-        if i["status"] == "panic" and "panic=" not in line and not line.startswith("clonefuse") and prev is not None and not sc.meta_clonefuse(int(i["step"])):
+        elif user_wrote and not cb_panicked and [rows_of(c) for c in regs] != [rows_of(c) for c in parse_regs(s["regs"])]:
+            out.append(Failure(sc, prof, i["step"], f"rows differ from the mirror's rows: {i['regs']} vs {s['regs']}", f"C02:{op}:aligned", {"I": i["raw"], "S": s["raw"]}))
+        if i["status"] == "panic" and "panic=" not in line and prev is not None and not sc.meta_clonefuse(int(i["step"])):
             if i["regs"] != prev:
                 out.append(Failure(sc, prof, i["step"], f"argument panic changed the container: before={prev} after={i['regs']}", f"C02:{op}:atomic", {"I": i["raw"]}))
         prev = i["regs"]
